@@ -1,4 +1,5 @@
-import NmlVerif.Proofs.ArrayMorph
+import NmlVerif.Proofs.ArrayMorphHist
+import NmlVerif.Proofs.ArrayMorphDoc
 /-!
 # C18 — array morphologies survive their file format; their views agree with the arrays
 
@@ -118,6 +119,120 @@ theorem c18_convert_old_witness :
       ⟨2, (2,0,0,3), (1,0,0,2), some 1⟩] := by
   decide
 
+/-! ## histories: any sequence of calls on ONE object (the segment cache is state)
+
+`Obj` = arrays + `SegmentList.instantiated_segments`; `run (fresh a) ops` executes the calls `ops`
+(`segments[i]`, `len`, iteration, `segment_from_vertex_index`, `to_neuroml_morphology`, `to_root`, in any order)
+on one freshly built object; `specRun a ops` gives the ARRAY-DEFINED value of every call (computed from the
+arrays as they are at that moment, no cache). -/
+
+/-- the full statement: whatever was called before, every call returns the array-defined value -/
+def c18_history_full : Prop :=
+  ∀ (a : Arr) (r : Nat), Valid a r → ∀ ops : List Op, (run (fresh a) ops).1 = (specRun a ops).1
+
+/-- **every history that does not read the view after re-rooting a morphology whose view was read before.**
+    `pre` (no `segments[i]` / iteration: the cache is still empty, `to_root` allowed), then `mid` (anything but
+    `to_root`), then `post` (again no `segments[i]` / iteration; `to_root` allowed): every result equals the
+    array-defined one and the arrays evolve as the array-level functions say — for ANY arrays (no validity
+    needed), any indices (negative, out of range: the same error). In particular a conversion is never
+    influenced by what the view handed out before. -/
+theorem c18_history_partial (a : Arr) (pre mid post : List Op)
+    (hpre : ∀ op ∈ pre, op.usesCache = false) (hmid : ∀ op ∈ mid, op.isToRoot = false)
+    (hpost : ∀ op ∈ post, op.usesCache = false) :
+    (run (fresh a) (pre ++ mid ++ post)).1 = (specRun a (pre ++ mid ++ post)).1 ∧
+      (run (fresh a) (pre ++ mid ++ post)).2.arr = (specRun a (pre ++ mid ++ post)).2 := by
+  obtain ⟨p1, p2, p3⟩ := run_nocache pre (fresh a) hpre
+  have hc1 : Coh (run (fresh a) pre).2 := coh_of_empty p3
+  obtain ⟨m1, m2, m3, _⟩ := run_coh mid (run (fresh a) pre).2 hc1 hmid
+  obtain ⟨q1, q2, _⟩ := run_nocache post (run (run (fresh a) pre).2 mid).2 hpost
+  have ea : (fresh a).arr = a := rfl
+  rw [ea] at p1 p2
+  rw [p2] at m1 m2 m3
+  rw [m2] at q1 q2
+  simp only [run_append, specRun_append, List.append_assoc]
+  rw [m3]
+  exact ⟨by rw [p1, m1, q1], q2⟩
+
+/-- after ANY history of view reads / conversions (no re-rooting) on a morphology without floating vertices,
+    `to_neuroml_morphology` still yields exactly the view's segments, `segments[i]` still is the segment of
+    vertex `i+1` joined to its parent vertex, `len` still is `n - 1` -/
+theorem c18_history_view_convert (a : Arr) (r : Nat) (h : Valid a r) (ops : List Op)
+    (hops : ∀ op ∈ ops, op.isToRoot = false) :
+    (step (run (fresh a) ops).2 .conv).1 = .conv (.ok (viewIter a)) ∧
+    (step (run (fresh a) ops).2 .iter).1 = .segs (viewIter a) ∧
+    (step (run (fresh a) ops).2 .len).1 = .len (a.conn.length - 1) ∧
+    ∀ (i : Nat) (hi : i < (viewIter a).length),
+      (step (run (fresh a) ops).2 (.get (i : Int))).1 = .seg (.ok (viewIter a)[i]) := by
+  obtain ⟨_, m2, _, m4⟩ := run_coh ops (fresh a) (coh_fresh a) hops
+  have ea : (fresh a).arr = a := rfl
+  rw [ea] at m2
+  refine ⟨?_, ?_, ?_, ?_⟩
+  · show Res.conv (toNeuromlMorphology (run (fresh a) ops).2.arr) = _
+    rw [m2, c18_convert_eq_view a r h]
+  · obtain ⟨g1, _, _⟩ := iterObj_coh m4
+    show Res.segs (iterObj (run (fresh a) ops).2).1 = _
+    rw [g1, m2]
+  · show Res.len (viewLen (run (fresh a) ops).2.arr) = _
+    rw [m2, h.viewLen]
+  · intro i hi
+    obtain ⟨g1, _, _⟩ := getItem_coh m4 (i : Int)
+    show Res.seg (getItem (run (fresh a) ops).2 (i : Int)).1 = _
+    rw [g1, m2, (c18_view_ids a r h i hi).1]
+
+/-- `to_root` inside a history: it never looks at the cache, so after any calls whatsoever it re-roots the
+    arrays the object then holds exactly as `c18_toRoot` says -/
+theorem c18_history_toRoot (o : Obj) (r j : Nat) (h : IsTree o.arr.conn r) (hj : j < o.arr.conn.length) :
+    ∃ c', step o (.toRoot (j : Int)) = (.unit (.ok ()), { o with arr := { o.arr with conn := c' } }) ∧
+      c'.length = o.arr.conn.length ∧ IsTree c' j ∧ ∀ u v, EdgeL c' u v ↔ EdgeL o.arr.conn u v := by
+  obtain ⟨c', h1, h2, h3, h4⟩ := c18_toRoot o.arr r j h hj
+  refine ⟨c', ?_, h2, h3, h4⟩
+  simp only [step, toRootObj, h1]
+
+/-- re-rooting back: a tree's connectivity array is determined by its undirected edges and its root, so
+    `to_root(j)` followed by `to_root(r)` restores the ORIGINAL array exactly -/
+theorem c18_toRoot_back (a : Arr) (r j : Nat) (h : IsTree a.conn r) (hj : j < a.conn.length) :
+    ∃ a1, toRoot a (j : Int) = .ok a1 ∧ toRoot a1 (r : Int) = .ok a := by
+  obtain ⟨c1, h1, l1, t1, e1⟩ := c18_toRoot a r j h hj
+  have hr : r < a.conn.length := (List.getElem?_eq_some_iff.mp h.root).1
+  obtain ⟨c2, h2, l2, t2, e2⟩ := c18_toRoot { a with conn := c1 } j r t1 (by simpa [l1] using hr)
+  refine ⟨_, h1, ?_⟩
+  rw [h2]
+  have : c2 = a.conn := isTree_unique t2 h (by rw [l2]; exact l1) (fun u v => (e2 u v).trans (e1 u v))
+  rw [this]
+
+/-- the fuel of the model's iteration loop (the sequence protocol behind `list(morph.segments)`) is always
+    enough: any larger fuel gives the same segments and the same cache, for EVERY object state (coherent cache
+    or not, user-assigned segments beyond the arrays included) -/
+theorem c18_iter_fuel_enough (o : Obj) (extra : Nat) : iterFrom (iterFuel o + extra) o 0 = iterObj o :=
+  iterObj_fuel_enough o extra
+
+/-- the full history statement fails on the code as it is: `to_root` does not invalidate the segment cache.
+    4-vertex chain, `to_root(3)`, `segments[0]`, `to_root(0)` (the arrays are back to the original, a tree rooted
+    at 0 without floating vertices), `segments[0]`: still vertex 1 joined to vertex 2 (its parent while the root
+    was 3) instead of vertex 0 -/
+theorem c18_history_witness : ¬ c18_history_full := by
+  intro hfull
+  have hv : Valid ⟨[(0,0,0,1), (1,0,0,2), (2,0,0,3), (3,0,0,4)], [-1, 0, 1, 2], [false, false, false, false]⟩ 0 :=
+    ⟨rfl, rfl, by decide, isTree_chain4⟩
+  have := hfull _ 0 hv [.toRoot 3, .get 0, .toRoot 0, .get 0]
+  revert this
+  decide
+
+/-- … the witness in detail: the arrays are the original ones again when the stale segment is returned -/
+theorem c18_history_witness_values :
+    let a : Arr := ⟨[(0,0,0,1), (1,0,0,2), (2,0,0,3), (3,0,0,4)], [-1, 0, 1, 2], [false, false, false, false]⟩
+    let r := run (fresh a) [.toRoot 3, .get 0, .toRoot 0, .get 0]
+    r.2.arr = a ∧ r.1[3]? = some (.seg (.ok ⟨1, (1,0,0,2), (2,0,0,3), none⟩)) ∧
+      viewGet a 0 = .ok ⟨1, (1,0,0,2), (0,0,0,1), none⟩ := by
+  decide
+
+/-- the proposed repair (`to_root` also empties `instantiated_segments`): with it the FULL history statement
+    holds — every call of every history returns the array-defined value -/
+theorem c18_history_fixed_full (a : Arr) (ops : List Op) :
+    (runFixed (fresh a) ops).1 = (specRun a ops).1 ∧ (runFixed (fresh a) ops).2.arr = (specRun a ops).2 := by
+  have := runFixed_coh ops (fresh a) (coh_fresh a)
+  exact ⟨this.1, this.2.1⟩
+
 /-! ## the file format -/
 
 /-- a single morphology written on its own and loaded back: the same three arrays, whatever they are
@@ -195,6 +310,50 @@ theorem c18_writeDocOld_fails (d : Doc) (hm : d.morphs ≠ []) : ∀ f, writeDoc
       simp only [writeMorphsOld, writeSingleCell, addNode_dup _ hmem] at hf
       cases hf
 
+/-! ## documents that also hold cells without an embedded morphology / plain morphologies -/
+
+/-- the full statement for ANY document: the array morphologies it holds (`d.arrayDoc`) survive -/
+def c18_load_write_xdoc_full : Prop :=
+  ∀ d : XDoc, ∃ f ms, writeXDoc d = .ok f ∧ load f = .ok ms ∧ ms.Perm (docArrs d.arrayDoc)
+
+/-- when every cell embeds an `ArrayMorphology` and every stand-alone morphology is one, the writer behaves as
+    on a `Doc`: round trip under the name hypotheses of `c18_load_write_doc_partial` -/
+theorem c18_load_write_xdoc_partial (d : XDoc) (ha : AllArray d) (hn : (topNames d.arrayDoc).Nodup)
+    (hv : ∀ c ∈ d.arrayDoc.cells, c.morph.id ≠ some "vertices") :
+    ∃ f ms, writeXDoc d = .ok f ∧ load f = .ok ms ∧ ms.Perm (docArrs d.arrayDoc) := by
+  obtain ⟨f, ms, h1, h2, h3, _⟩ := c18_load_write_doc_partial d.arrayDoc hn hv
+  exact ⟨f, ms, by rw [writeXDoc_all d ha, h1], h2, h3⟩
+
+/-- EVERY document with a cell that has no embedded morphology, or a plain one, is unwritable (`AttributeError`),
+    whatever else it holds -/
+theorem c18_load_write_xdoc_nonarray (d : XDoc) (h : ∃ c ∈ d.cells, ∀ m, c.morph ≠ .array m) :
+    ∀ f, writeXDoc d ≠ .ok f := by
+  intro f hf
+  unfold writeXDoc at hf
+  cases hc : writeXCells 0 d.cells [] with
+  | error e => rw [hc] at hf; cases hf
+  | ok f1 => exact writeXCells_nonarray d.cells 0 [] h f1 hc
+
+/-- the full statement fails: a cell that refers to a stand-alone array morphology instead of embedding one -/
+theorem c18_load_write_xdoc_witness : ¬ c18_load_write_xdoc_full := by
+  intro h
+  obtain ⟨f, _, h1, _, _⟩ := h ⟨[⟨some "c", .none⟩], [.array ⟨some "m", ⟨[], [], []⟩⟩]⟩
+  exact c18_load_write_xdoc_nonarray _ ⟨⟨some "c", .none⟩, by simp, by intro m hm; cases hm⟩ f h1
+
+/-- with the proposed loader repair (a morphology group is recognised by an ARRAY called `vertices`) the
+    hypothesis about cell morphologies called "vertices" is not needed any more -/
+theorem c18_load_write_doc_fixedLoader (d : Doc) (hn : (topNames d).Nodup) :
+    ∃ f, writeDoc d = .ok f ∧ (loadFixed f).Perm (docArrs d) := by
+  refine ⟨entries d, writeDoc_ok d hn, ?_⟩
+  rw [loadFixed_entries_perm _ (entries_single d), ← entries_arrs d]
+  exact List.Perm.flatMap_right _ (List.mergeSort_perm _ _)
+
+/-- an id-less morphology is named `Morphology<position>`: that collides with an explicit id of the same shape
+    (`NodeError`) — one more way the full document statement fails -/
+theorem c18_load_write_doc_witness_default_id :
+    writeDoc ⟨[], [⟨some "Morphology1", ⟨[], [], []⟩⟩, ⟨none, ⟨[], [], []⟩⟩]⟩ = .error .nodeError := by
+  decide
+
 /-! ## the hypotheses are satisfiable (non-vacuity) -/
 
 /-- a 5-vertex tree in shuffled numbering (parent index above child index), root 0 -/
@@ -220,5 +379,30 @@ example :
                     [⟨some "a", ⟨[], [-1, 0], []⟩⟩, ⟨none, ⟨[], [], [true]⟩⟩]⟩
     (topNames d).Nodup ∧ (∀ c ∈ d.cells, c.morph.id ≠ some "vertices") ∧ d.morphs ≠ [] := by
   decide
+
+/-- a history that meets the hypotheses of `c18_history_partial` (re-root first, then read the view in many ways,
+    then re-root again and convert): 10 calls, the cache ends up with 5 bindings (one under a negative key), and
+    the results are the array-defined ones -/
+example :
+    let a : Arr := ⟨[(0,0,0,8), (8,1,0,7), (16,2,0,6), (24,3,0,5), (32,4,0,4)], [-1, 3, 0, 0, 1],
+                    [false, false, false, false, false]⟩
+    let pre : List Op := [.toRoot 4]
+    let mid : List Op := [.get 1, .iter, .conv, .get 1, .get (-2), .sfv 3]
+    let post : List Op := [.toRoot 0, .conv, .len]
+    (∀ op ∈ pre, op.usesCache = false) ∧ (∀ op ∈ mid, op.isToRoot = false) ∧ (∀ op ∈ post, op.usesCache = false) ∧
+      (run (fresh a) (pre ++ mid ++ post)).1 = (specRun a (pre ++ mid ++ post)).1 ∧
+      (run (fresh a) (pre ++ mid ++ post)).2.cache.length = 5 ∧
+      (run (fresh a) (pre ++ mid ++ post)).2.arr = a := by
+  decide
+
+/-- an `XDoc` meeting the hypotheses of `c18_load_write_xdoc_partial`; one violating `AllArray` -/
+example :
+    let d : XDoc := ⟨[⟨some "b", .array ⟨none, ⟨[], [-1], []⟩⟩⟩], [.array ⟨some "a", ⟨[], [-1, 0], []⟩⟩]⟩
+    (topNames d.arrayDoc).Nodup ∧ (∀ c ∈ d.arrayDoc.cells, c.morph.id ≠ some "vertices") ∧
+      writeXDoc d = writeDoc d.arrayDoc := by
+  decide
+
+example : AllArray ⟨[⟨some "b", .array ⟨none, ⟨[], [-1], []⟩⟩⟩], [.array ⟨some "a", ⟨[], [-1, 0], []⟩⟩]⟩ :=
+  ⟨by intro c hc; simp at hc; subst hc; exact ⟨_, rfl⟩, by intro x hx; simp at hx; subst hx; exact ⟨_, rfl⟩⟩
 
 end NmlVerif.ArrayMorph
